@@ -221,11 +221,19 @@ llm_rails_events_history_cache = {}
 def _generate_cache_key(config_ids: List[str]) -> str:
     """Generates a cache key for the given config ids."""
 
-    return "-".join((config_ids))  # remove sorted
+    # The separator cannot be part of a valid config id (see `_get_rails`), so different
+    # lists of config ids never share a key; a single id is used as is.
+    return "/".join((config_ids))  # remove sorted
 
 
 def _get_rails(config_ids: List[str]) -> LLMRails:
     """Returns the rails instance for the given config id."""
+
+    # A config id must be the name of a folder directly inside the configurations folder.
+    # We check this before anything else, i.e., also before looking into the cache.
+    for config_id in config_ids:
+        if config_id in ["", "."] or re.search(r"[\\/]|(\.\.)", config_id):
+            raise ValueError("Invalid config_id.")
 
     # If we have a single config id, we just use it as the key
     configs_cache_key = _generate_cache_key(config_ids)
@@ -254,6 +262,9 @@ def _get_rails(config_ids: List[str]) -> LLMRails:
 
         if os.path.commonprefix([full_path, base_path]) != base_path:
             raise ValueError("Access to the specified path is not allowed.")
+
+        if not os.path.isdir(full_path):
+            raise ValueError(f"Invalid config_id: {config_id}")
 
         rails_config = RailsConfig.from_path(full_path)
 
